@@ -26,7 +26,9 @@ fn id_pad(id: &str) -> usize {
 fn good_value(id: &str) -> Value {
     Value::Record(vec![("a".into(), Value::Long(id_num(id))), ("b".into(), Value::String("x".repeat(id_pad(id))))])
 }
-#[derive(Serialize)]
+// (the schema-aware deserializer requires the struct's serde name to be the record's name)
+#[derive(Serialize, serde::Deserialize)]
+#[serde(rename = "R")]
 struct GoodSer { a: i64, b: String }
 fn good_ser(id: &str) -> GoodSer {
     GoodSer { a: id_num(id), b: "x".repeat(id_pad(id)) }
@@ -209,11 +211,23 @@ fn replay_one(bid: usize, scn: &J, out: &mut Box<dyn std::io::Write>) {
         for it in rd {
             match it { Ok(v) => ids.push(value_id(&v)), Err(_) => { err = true; } }
         }
-        Ok::<J, String>(json!({"read_ok": !err, "read": ids, "meta": meta, "nmeta": nmeta, "schema_same": schema_same, "empty": false}))
+        // and through the deserializing iterator
+        let mut dids = vec![];
+        let mut derr = false;
+        if let Ok(rd2) = Reader::new(&bytes[..]) {
+            for it in rd2.into_deser_iter::<GoodSer>() {
+                match it {
+                    Ok(g) => dids.push(value_id(&Value::Record(vec![("a".into(), Value::Long(g.a)), ("b".into(), Value::String(g.b))]))),
+                    Err(_) => { derr = true; }
+                }
+            }
+        } else { derr = true; }
+        Ok::<J, String>(json!({"read_ok": !err, "read": ids, "meta": meta, "nmeta": nmeta, "schema_same": schema_same, "empty": false,
+                               "deser_ok": !derr, "deser_read": dids}))
     }));
     let mut ev = match rb {
         Ok(Ok(j)) => j,
-        _ => json!({"read_ok": false, "read": [], "meta": [], "nmeta": 0, "schema_same": false, "empty": bytes.is_empty()}),
+        _ => json!({"read_ok": false, "read": [], "meta": [], "nmeta": 0, "schema_same": false, "empty": bytes.is_empty(), "deser_ok": false, "deser_read": []}),
     };
     ev["ev"] = J::from("end");
     ev["bid"] = J::from(bid);
